@@ -286,6 +286,8 @@ def gen_scenario(rng, aligned=True, max_names=5):
                 continue
             t = next(text_id)
             alias = n
+            if rng.random() < 0.2:
+                alias = 100 + n              # file found under a variant of the requested name
             if not aligned and rng.random() < 0.3:
                 alias = rng.choice(names)
             sc['sources'][i][str(n)] = ['ok', alias, rng.choice([5, 10, 10, 15]), t]
@@ -326,11 +328,12 @@ def gen_scenario(rng, aligned=True, max_names=5):
 
 
 def is_aligned(sc):
-    """every file a source returns for name n holds exactly one module, named n, under alias n"""
+    """every file a source returns for name n holds exactly one module, named n, found under alias n
+    or under a variant of it that is no module's name (100+n)"""
     for src in sc['sources']:
         for n, a in src.items():
             if isinstance(a, list):
-                if a[1] != int(n):
+                if a[1] != int(n) and a[1] != 100 + int(n):
                     return False
                 p = sc['parse'].get(str(a[3]), 'err')
                 if p != 'err':
